@@ -391,13 +391,29 @@ def persist(replay):
 
 
 def load_corpus():
+    """past failing inputs; their named types are renumbered (consistently within an entry) into a range the
+    generated population never uses, so that ids keep identifying objects"""
     out = []
+    nxt = [500000]
     if os.path.isdir(CORPUS):
         for f in sorted(os.listdir(CORPUS)):
             try:
-                out += [parse_spec(s) for s in json.load(open(os.path.join(CORPUS, f)))["types"]]
+                ts = [parse_spec(s) for s in json.load(open(os.path.join(CORPUS, f)))["types"]]
             except Exception:
                 continue
+            ren = {}
+
+            def go(t):
+                k = t[0]
+                if k == "L":
+                    return ("L", go(t[1]))
+                if k in "ADI":
+                    if (k, t[1]) not in ren:
+                        nxt[0] += 1
+                        ren[(k, t[1])] = nxt[0]
+                    return (k, ren[(k, t[1])], go(t[2]))
+                return t
+            out += [go(t) for t in ts]
     return out
 
 
@@ -553,6 +569,10 @@ def leg_frontend(ck, fnd, typex, pop, res, pairs, codes):
                 continue
             for p in where:
                 verdict.setdefault(p, True)
+            if verdict["init"] != verdict["assign"]:     # the two positions always agree (law on the implementation itself)
+                fnd.add("law=init-assign-agree init=%s assign=%s required=%s supplied=%s" % (verdict["init"], verdict["assign"], shape(T), shape(V)),
+                        "initialising a %s with a %s is %s but assigning it is %s" % (spec(T), spec(V), "accepted" if verdict["init"] else "rejected", "accepted" if verdict["assign"] else "rejected"),
+                        dict(types=[spec(T), spec(V)], law="init-assign-agree", program=src), size(T) + size(V))
             for p, acc in verdict.items():
                 ck.count()
                 dist[p][0 if acc else 1] += 1
